@@ -191,8 +191,8 @@ def parse_output(out):
                 txt = '\n'.join(blocks[thread_of_line])
                 st = RES_BLOCK.search(txt)
                 fails = []
-                for fm in re.finditer(r'Failed Checks: (.*?)\n File: "([^"]*)", line (\d+)', txt):
-                    fails.append({'desc': fm.group(1).strip(), 'file': fm.group(2), 'line': int(fm.group(3))})
+                for fm in re.finditer(r'Failed Checks: (.*?)\n File: "([^"]*)", line (\d+)', txt, flags=re.S):
+                    fails.append({'desc': ' '.join(fm.group(1).split()), 'file': fm.group(2), 'line': int(fm.group(3))})
                 tm = re.search(r'Verification Time: ([0-9.]+)s', txt)
                 results[h] = {'status': st.group(1) if st else 'UNKNOWN', 'failed_checks': fails,
                               'time_s': float(tm.group(1)) if tm else None, 'raw': txt[-3000:]}
